@@ -47,8 +47,9 @@ def main():
     results = json.load(open(res_path)) if os.path.exists(res_path) else {}
     for sid in ids:
         meta = json.load(open(os.path.join(SEEDED, sid, "meta.json")))
-        r = run_one(sid, meta["property"], extra)
+        r = run_one(sid, meta["property"], list(extra) + list(meta.get("also_run", [])))
         results[sid] = r
+        r["caught_by_any"] = any(v["caught"] for v in r["checks"].values())
         print(sid, meta["property"], "applies" if r["applies"] else "DOES-NOT-APPLY",
               {k: v["caught"] for k, v in r["checks"].items()}, flush=True)
         json.dump(results, open(res_path, "w"), indent=1, sort_keys=True)
@@ -59,8 +60,11 @@ def main():
             c = r["checks"].get(r["property"], {})
             fv = (c.get("first_violation") or r.get("note") or "").replace("|", "/")
             fv = re.sub(r"^violation class=", "", fv)[:160]
-            f.write("| %s | %s | %s | %s | %s |\n" % (sid, r["property"], "yes" if r["applies"] else "no",
-                                                     "yes" if c.get("caught") else ("-" if not r["applies"] else "NO"), fv))
+            others = [k for k, v in r["checks"].items() if k != r["property"] and v.get("caught")]
+            verdict = "yes" if c.get("caught") else ("-" if not r["applies"] else ("by " + ",".join(others) if others else "NO"))
+            if not c.get("caught") and others:
+                fv = re.sub(r"^violation class=", "", (r["checks"][others[0]].get("first_violation") or "").replace("|", "/"))[:160]
+            f.write("| %s | %s | %s | %s | %s |\n" % (sid, r["property"], "yes" if r["applies"] else "no", verdict, fv))
 
 
 if __name__ == "__main__":
